@@ -107,7 +107,12 @@ def _run_suite(spec, suite, tier, rng, ctx, budget_scale=1):
                 seen.add(key)
                 res["nontrivial"] += 1
             if io["rc"] != 0:
-                res["crashes"].append({"case": c, "rc": io["rc"], "err": io["err"], "impl": iout})
+                # the trace up to the crash may already show the property failing: keep the oracle's view for the report
+                try:
+                    partial = suite.oracle(c, iout)[:3]
+                except Exception:
+                    partial = []
+                res["crashes"].append({"case": c, "rc": io["rc"], "err": io["err"], "impl": iout, "oracle_partial": partial})
                 continue
             try:
                 msgs = suite.oracle(c, iout)
@@ -281,8 +286,10 @@ def run_check(spec, tier="quick", replay=None):
         exe = r["exe"]
         for it in r["crashes"][:3]:
             c = _shrink(suite, exe, it, "crash")
-            add_violation("crash", "implementation crashed / sanitizer report (rc=%s)" % it["rc"],
-                          {"suite": suite.name, "case": c["lines"], "stderr": it["err"][-3000:], "impl_output": it["impl"]},
+            add_violation("crash", "implementation crashed / sanitizer report (rc=%s)%s" % (
+                              it["rc"], ("; oracle on the trace so far: " + "; ".join(it.get("oracle_partial") or [])) if it.get("oracle_partial") else ""),
+                          {"suite": suite.name, "case": c["lines"], "stderr": it["err"][-3000:], "impl_output": it["impl"],
+                           "oracle_on_partial_trace": it.get("oracle_partial") or []},
                           suite.signature(c, "crash"))
         seen_msgs = set()
         for it in r["oracle_fail"]:
